@@ -14,8 +14,9 @@ every data type:
   interpDictStr_eq_old   Spec.interpDictStr ext dt s = normErr (interpDictStrOld ext dt s)
   specBytes_eq / specKey_eq
 
-`interpScalarOld` / `interpDictStrOld` are the FORMER definitions of Spec/Interp.lean (which called the model), kept
-here so that the existing proofs — which unfold the former text — go through after one rewrite.  `normErr` forgets which
+`interpScalarOld` / `interpDictStrOld` are the definitions of the same functions THROUGH THE MODEL (`convLeaf`,
+`scalarToString`, `tryInto`; what Spec/Interp.lean said before it was written over Spec/Leaf.lean), kept here because
+the proofs of the refinement theorems unfold that text: they go through after one rewrite with the bridge.  `normErr` forgets which
 error: the specification has ONE undefined outcome (`Spec.undefinedLeaf`), the model's conversions return messages;
 no theorem observes the message of a specification error.
 -/
@@ -84,9 +85,9 @@ def kindOf (dt : DataType) : Option LeafKind :=
   | .decimal128 p s => some (.decimal p s)
   | _ => none
 
-/-! ### the former definitions -/
+/-! ### the definitions through the model -/
 
-/-- the former definition of `Spec.interpDictStr` (through `Ext` and the model's `tryInto`).  `build_builder` takes ANY value type for a
+/-- `Spec.interpDictStr` defined through `Ext` and the model's `tryInto`.  `build_builder` takes ANY value type for a
 `Dictionary`; the value builder receives every distinct string once, through `serialize_str`: the string types keep the
 string, the temporal and decimal types store the PARSED value (`Dictionary(Int8, Date32)` holds dates), a nested
 dictionary hands the string on to its own value type, every other type refuses strings. -/
@@ -103,7 +104,7 @@ def interpDictStrOld (ext : Ext) : DataType → String → R LVal
   | .dictionary _ v, s => interpDictStrOld ext v s
   | _, _ => fail "the value type of the dictionary takes no strings"
 
-/-- the former definition of `Spec.interpScalar` (through the model's `convLeaf` / `scalarToString`) -/
+/-- `Spec.interpScalar` defined through the model's `convLeaf` / `scalarToString` -/
 def interpScalarOld (ext : Ext) (dt : DataType) (x : SVal) : R LVal :=
   let kind : Option LeafKind :=
     match dt with
@@ -235,14 +236,14 @@ theorem convLeaf_eq_specLeaf (ext : Ext) {dt : DataType} {k : LeafKind} (hk : ki
     case int t v => cases t <;> (try rfl) <;> simp only [specLeaf, durationCell, convLeaf, fits_eq] <;> (try rfl) <;> cases tryInto _ _ <;> rfl
   case decimal128 p sc => cases x <;> rfl
 
-/-- the former `interpScalar` at a column with a primitive-array builder -/
+/-- `interpScalarOld` at a column with a primitive-array builder -/
 theorem interpScalarOld_kind {ext : Ext} {dt : DataType} {k : LeafKind} (hk : kindOf dt = some k) (x : SVal) :
     interpScalarOld ext dt x = (do
       let v ← convLeaf ext k x
       pure (leafVal k v)) := by
   cases dt <;> simp [kindOf] at hk <;> subst hk <;> simp only [interpScalarOld, leafVal] <;> rfl
 
-/-- **dictionary value types**: `Spec.dictValue` is the former `interpDictStr` (which called `Ext` and `tryInto`) -/
+/-- **dictionary value types**: `Spec.dictValue` (lifted: `interpDictStr`) equals `interpDictStrOld`, the definition through `Ext` and `tryInto`, up to which error -/
 theorem interpDictStr_eq_old (ext : Ext) : ∀ (dt : DataType) (s : String),
     interpDictStr ext dt s = normErr (interpDictStrOld ext dt s) := by
   intro dt s
